@@ -292,6 +292,7 @@ def gen_lemma(l: Lemma, prop: str, bounded=None) -> FunctionReport:
         node, params = contract_ast(fn)
         ann = fn.__annotations__
         c = Contract("lemma:" + l.name, None, (prop,), "verify")
+        c.opts.update(getattr(l, "opts", None) or {})      # opt-in per lemma (set `L.opts = {...}` after the decorator)
         ex = FullExecutor(c, prop, feas_timeout_ms=int(c.opts.get("feas_timeout_ms", 500)))   # opt-in per contract: budget of a path-feasibility query
         st = State()
         st.ghost["__globals__"] = _globals_of(fn)
